@@ -291,6 +291,9 @@ def k_reorder(c, rng, q, pat):
     ind_bad = ind64.copy()
     ind_bad[::3] = m + 5
     ind_bad[1::7] = -2
+    ind_bad[2::5] = m                 # first index past the end
+    ind_bad[3::11] = -1
+    ind_bad[4::13] = m - 1            # last valid one
     dat3 = np.zeros(m, np.float32)
     c.put_incr64(dat3, ind_bad, vals, 1)
     dat4 = np.zeros(m, np.float32)
@@ -342,11 +345,12 @@ def k_scoring(c, rng, q, pat):
         c.compute_xlylzl(rng.uniform(0, 2048, n), rng.uniform(0, 2048, n), np.array([1000., 1000., 50., -50.]),
                          np.eye(3).ravel(), np.array([1e5, 0., 0.]), xo)
         out["geom"] = (gout, geo, xo)
-    if n >= 2:
+    if n >= 1:
         x = rng.uniform(-1, 1, (n, int(q["dim"])))
         ic = buf(n, np.int32, pat)
-        c.closest_vec(x, ic)
+        c.closest_vec(x, ic)              # one vector: there is no neighbour, nothing outside x may be read
         out["cv"] = ic
+    if n >= 2:
         cosx = rng.uniform(-1, 1, n)
         out["closest"] = c.closest(cosx, np.sort(rng.uniform(-1, 1, 5)))
     U1 = gens.rotation_from_seed(int(rng.randint(0, 2 ** 31 - 1)))
